@@ -163,6 +163,17 @@ func cmdCheck(args []string) int {
 	}
 	defer sv.cleanup()
 	sv.agree = *tier == "thorough"
+	for _, u := range units {
+		if kinds := u.Block.PropKinds[*prop]; kinds != nil {
+			var kept []*Obligation
+			for _, o := range u.Ctx.obls {
+				if o.Expect == "sat" || kindAllowed(kinds, o.Kind) {
+					kept = append(kept, o)
+				}
+			}
+			u.Ctx.obls = kept
+		}
+	}
 	sv.dischargeAll(units, 16)
 
 	known, err := loadKnownFindings(filepath.Join(vdir, "known_findings.txt"))
@@ -209,6 +220,9 @@ func cmdCheck(args []string) int {
 		obls := u.Ctx.obls
 		sort.SliceStable(obls, func(i, j int) bool { return obls[i].Name < obls[j].Name })
 		for _, o := range obls {
+			if kinds := u.Block.PropKinds[*prop]; kinds != nil && o.Expect != "sat" && !kindAllowed(kinds, o.Kind) {
+				continue
+			}
 			pos := fmt.Sprintf("%s:%d", shortPos(o.Pos.Filename), o.Pos.Line)
 			recs = append(recs, oblRecord{o.Name, o.Kind, o.Status, o.Backend, o.SolverS, pos, o.Text})
 			solverTime += o.SolverS
@@ -406,4 +420,13 @@ func writeReplay(vdir, prop, name string, o *Obligation, u *Unit, reason string,
 	data, _ := json.MarshalIndent(rec, "", " ")
 	os.WriteFile(path, data, 0o644)
 	return path
+}
+
+func kindAllowed(kinds []string, kind string) bool {
+	for _, k := range kinds {
+		if k == kind || (k == "safety" && (kind == "bounds" || kind == "nil" || kind == "assert-type" || kind == "div0" || kind == "panic-unreachable" || kind == "overflow")) {
+			return true
+		}
+	}
+	return false
 }
